@@ -1041,6 +1041,22 @@ impl<'a, 'b> Gen<'a, 'b> {
                     forms.push(Form::Expr(Expr::App(Box::new(app("car", vec![var(&ops)])), vec![])));
                     forms.push(Form::Expr(Expr::App(Box::new(app("cadr", vec![var(&ops)])), vec![Expr::Int(3)])));
                     forms.push(Form::Expr(Expr::App(Box::new(app("car", vec![var(&ops)])), vec![])));
+                    // a call in tail position whose operator is an expression that is observed each time it is evaluated
+                    if self.cfg.ticks {
+                        let t = self.next_tick;
+                        self.next_tick += 1;
+                        let caller = format!("call-ops{}", k);
+                        forms.push(Form::Define(Def {
+                            name: caller.clone(),
+                            value: Expr::Lambda(
+                                Formals { fixed: vec!["d".into()], rest: None },
+                                body1(Expr::App(Box::new(Expr::Tick(t, Box::new(app("cadr", vec![var(&ops)])))), vec![var("d")])),
+                            ),
+                            sugar: self.ch.chance(1, 2),
+                        }));
+                        forms.push(Form::Expr(app(&caller, vec![Expr::Int(1)])));
+                        forms.push(Form::Expr(app("+", vec![Expr::Int(0), app(&caller, vec![Expr::Int(2)])])));
+                    }
                     self.labels.closures_escaping += 1;
                     self.labels.closures_in_data += 1;
                 }
@@ -1063,11 +1079,30 @@ impl<'a, 'b> Gen<'a, 'b> {
                         forms.push(Form::Expr(app(&nm, vec![Expr::Int(100)])));
                         forms.push(Form::Define(Def { name: nm.clone(), value: app(&mk, vec![Expr::Int(b)]), sugar: false }));
                         forms.push(Form::Expr(app(&nm, vec![Expr::Int(100)])));
-                    } else {
+                    } else if self.ch.chance(1, 2) {
                         forms.push(Form::Define(Def { name: nm.clone(), value: Expr::Int(a), sugar: false }));
                         forms.push(Form::Expr(var(&nm)));
                         forms.push(Form::Define(Def { name: nm.clone(), value: Expr::Real(format!("{}.0", a)), sugar: false }));
                         forms.push(Form::Expr(var(&nm)));
+                    } else {
+                        // a procedure that refers to itself by name, an old handle on it, and a second definition of the
+                        // name: the old procedure's self-reference is the (re-defined) global variable
+                        let saved = format!("saved{}", k);
+                        let rec = Expr::If(
+                            Box::new(app("<=", vec![var("n"), Expr::Int(0)])),
+                            Box::new(Expr::Quote(Datum::Sym("first".into()))),
+                            Some(Box::new(app(&nm, vec![app("-", vec![var("n"), Expr::Int(1)])]))),
+                        );
+                        forms.push(Form::Define(Def { name: nm.clone(), value: Expr::Lambda(Formals { fixed: vec!["n".into()], rest: None }, body1(rec)), sugar: self.ch.chance(1, 2) }));
+                        forms.push(Form::Define(Def { name: saved.clone(), value: var(&nm), sugar: false }));
+                        forms.push(Form::Expr(app(&saved, vec![Expr::Int(2)])));
+                        forms.push(Form::Define(Def {
+                            name: nm.clone(),
+                            value: Expr::Lambda(Formals { fixed: vec!["n".into()], rest: None }, body1(Expr::Quote(Datum::Sym("second".into())))),
+                            sugar: self.ch.chance(1, 2),
+                        }));
+                        forms.push(Form::Expr(app(&saved, vec![Expr::Int(3)])));
+                        forms.push(Form::Expr(app(&saved, vec![Expr::Int(0)])));
                     }
                     self.labels.redefinitions += 1;
                 }
